@@ -64,7 +64,7 @@ func run(doc, mode string) (out string, err error, pan string) {
 
 func lineAlphabet(u string) []string {
 	return []string{"- a", "- b", u + "- a", u + "- b", u + u + "- a", u + u + u + "- a", u[:len(u)/2] + " - a", u + "a", u + "-", "\t " + "- a", "", "   ", "# h", "* a", "+ b.go", u + "* b",
-		u + "- x/y",  // not a valid path element: dry run must reject it (in both builds, whatever was rendered before)
+		u + "- x/y",   // not a valid path element: dry run must reject it (in both builds, whatever was rendered before)
 		u + "- <&>\"", // characters with special treatment in JSON / HTML
 	}
 }
@@ -105,6 +105,26 @@ func cases(tier string, want func(docIdx int64) bool, f func(idx int64, doc, mod
 					return doc
 				})
 			})
+		}
+	}
+	// size families: wide fan-out, deep chains, many roots (with a repeated sibling name and a file-like leaf)
+	for size := 1; size <= 40 && ok; size++ {
+		var dw, dc, dr []int
+		var nw, nc, nr []string
+		dw, nw = append(dw, 1), append(nw, "wide")
+		for i := 0; i < size; i++ {
+			dw = append(dw, 2)
+			nw = append(nw, fmt.Sprintf("c%02d", i%37))
+			dc = append(dc, i+1)
+			nc = append(nc, fmt.Sprintf("n%02d", i))
+			dr = append(dr, 1, 2)
+			nr = append(nr, fmt.Sprintf("root%02d", i), "k.go")
+		}
+		dw = append(dw, 2, 3)
+		nw = append(nw, "c00", "late.go")
+		for _, t := range [][2]any{{dw, nw}, {dc, nc}, {dr, nr}} {
+			d, n := t[0].([]int), t[1].([]string)
+			emit(func() string { return enum.Spell(d, n, enum.Spelling{Unit: "  ", Bullets: []byte("-")}) })
 		}
 	}
 	for n := 1; n <= maxN && ok; n++ {
